@@ -9,9 +9,11 @@ _M_ITEM = re.compile(r"\((\d+)(?:%N)?,\((\d+)(?:%N)?,(\d+)(?:%N)?,(\w+)\)\)")
 
 ARGS = {
     ("C13", "quick"): ["-modes", "w,c,f,h", "-conc-rounds", "3", "-chan-repeat", "1"],
-    ("C13", "thorough"): ["-modes", "w,f,h", "-chan-repeat", "6"],   # + the concurrent calls in a -race binary, see run()
+    ("C13", "thorough"): ["-modes", "w,c,f,h", "-conc-rounds", "6", "-chan-repeat", "6"],
 }
-THOROUGH_CONC_ROUNDS = 40
+# the concurrent calls are run a second time in a -race instrumented binary (both tiers): a missing or too weak lock in FileSink is
+# masked by O_APPEND's atomic write(2) and shows up only there
+RACE_CONC_ROUNDS = {"quick": 2, "thorough": 40}
 
 ASSUMPTIONS = [
     "the io.Writer's answer to a Write, FileSink's open/rotate/reopen outcomes and the readiness instants of the select arms are oracle "
@@ -101,10 +103,10 @@ def run(ctx):
     ctx.log(out.strip()[-300:])
     if summ is not None:
         runs.append((summ, cases))
-    if ctx.tier == "thorough":
+    if True:
         rbin = _build(ctx, race=True)
         if rbin:
-            s2, c2, out2 = _run_driver(ctx, rbin, os.path.join(ctx.work, "sinks-race"), ["-modes", "c", "-conc-rounds", str(THOROUGH_CONC_ROUNDS)], "sinksh -race")
+            s2, c2, out2 = _run_driver(ctx, rbin, os.path.join(ctx.work, "sinks-race"), ["-modes", "c", "-conc-rounds", str(RACE_CONC_ROUNDS[ctx.tier])], "sinksh -race")
             ctx.log(out2.strip()[-300:])
             if s2 is not None:
                 runs.append((s2, c2))
